@@ -598,24 +598,32 @@ type c09HookLogger struct {
 	hook func()
 }
 
+// call: the state's own background goroutines (periodic clean-up) log through
+// the same logger; the hook only acts for the injecting goroutine.
+func (l *c09HookLogger) call() {
+	if h := l.hook; h != nil {
+		h()
+	}
+}
+
 func (l *c09HookLogger) Debugf(level uint8, format string, v ...interface{}) {
-	l.hook()
+	l.call()
 	l.DebugLogger.Debugf(level, format, v...)
 }
 func (l *c09HookLogger) Debugln(level uint8, v ...interface{}) {
-	l.hook()
+	l.call()
 	l.DebugLogger.Debugln(level, v...)
 }
 func (l *c09HookLogger) Debug(level uint8, v ...interface{}) {
-	l.hook()
+	l.call()
 	l.DebugLogger.Debug(level, v...)
 }
 func (l *c09HookLogger) Printf(format string, v ...interface{}) {
-	l.hook()
+	l.call()
 	l.DebugLogger.Printf(format, v...)
 }
 func (l *c09HookLogger) Println(v ...interface{}) {
-	l.hook()
+	l.call()
 	l.DebugLogger.Println(v...)
 }
 
@@ -663,7 +671,6 @@ func c09CheckInter(c c09InterCase) *vResult {
 	}
 	inner, innerGlobal := state.logger, logger
 	hooked := &c09HookLogger{DebugLogger: inner}
-	state.logger, logger = hooked, hooked
 	defer func() { state.logger, logger = inner, innerGlobal }()
 	hooked.hook = func() {
 		if c09GID() != atomic.LoadInt64(&injector) {
@@ -701,6 +708,7 @@ func c09CheckInter(c c09InterCase) *vResult {
 		case <-time.After(time.Duration(c.WaitMs) * time.Millisecond):
 		}
 	}
+	state.logger, logger = hooked, hooked
 	done := make(chan *vResp, 1)
 	go func() {
 		atomic.StoreInt64(&injector, c09GID())
